@@ -417,7 +417,11 @@ func init() {
 		}
 		jobs = append(jobs, s1job("groundplane", d, []string{"C20"}, 4, budget))
 		// samples and queries after a session switch, two sessions alive
-		jobs = append(jobs, s1job("two-sessions", d-1, []string{"C20"}, 4, budget))
+		td := 4
+		if tier == "thorough" {
+			td = 5
+		}
+		jobs = append(jobs, s1job("two-sessions", td, []string{"C20"}, 8, budget))
 		jobs = append(jobs, check.Job{Kind: "prims", Name: "IN:primitives"})
 		b := 2
 		if tier == "thorough" {
